@@ -1,7 +1,8 @@
 import EoNVerif.Basic
 /-!
-Model of `discrete_SIR` (simulation.py 556–665) under a deterministic transmission rule (a table) and an optional
-recovery rule ("recover at the k-th test"), of `basic_discrete_SIS` and of the Reed–Frost one-step law the `basic_*`
+Model of `discrete_SIR` (simulation.py 556–665) under a deterministic transmission rule (a table; with a recovery rule
+that keeps nodes infectious for several steps the outcome of a contact may depend on how many steps the source has
+already been infectious — a stateful user rule) and an optional recovery rule ("recover at the k-th test"), of `basic_discrete_SIS` and of the Reed–Frost one-step law the `basic_*`
 functions are supposed to sample.
 
 Python iterates `set`s of nodes; the model keeps node collections as sublists of `nodes` (filter order).  Everything
@@ -11,7 +12,8 @@ the property mentions (counts, infection steps, the *set* of possible infectors)
 structure DParams where
   nodes : List Node
   nbrs : Node → List Node
-  rule : Node → Node → Bool            -- test_transmission(u, v)
+  rule : Nat → Node → Node → Bool      -- test_transmission(u, v) at the (a+1)-th step `u` is infectious (a = `age u`);
+                                       -- a stateless rule ignores `a`
   recSteps : Option (Node → Nat)       -- test_recovery(u) answers True at its k-th call (k ≥ 1); none = default rule
   tmin : Rat
   tmax : ERat
@@ -43,9 +45,9 @@ def init (P : DParams) (infs recs : List Node) : DState :=
 /-- one generation -/
 def step (P : DParams) (s : DState) : DState :=
   let tnow := s.t.headD P.tmin
-  let newInf := P.nodes.filter fun v => s.sus v && s.inf.any fun u => (P.nbrs u).contains v && P.rule u v
+  let newInf := P.nodes.filter fun v => s.sus v && s.inf.any fun u => (P.nbrs u).contains v && P.rule (s.age u) u v
   let sus' := fun v => s.sus v && !newInf.contains v
-  let infectors := newInf.map fun v => (v, tnow, s.inf.filter fun u => (P.nbrs u).contains v && P.rule u v)
+  let infectors := newInf.map fun v => (v, tnow, s.inf.filter fun u => (P.nbrs u).contains v && P.rule (s.age u) u v)
   let (stay, recovered, age') : List Node × Int × (Node → Nat) :=
     match P.recSteps with
     | none => ([], (s.inf.length : Int), s.age)
@@ -70,13 +72,16 @@ def run (P : DParams) (infs recs : List Node) (fuel : Nat) : DState := loop P fu
 
 /-! ### specification: breadth-first distance in the digraph of successful contacts -/
 
+/-- the rule does not depend on how long the source has been infectious (any stateless `test_transmission`) -/
+def Ageless (P : DParams) : Prop := ∀ a u v, P.rule a u v = P.rule 0 u v
+
 /-- nodes at distance ≤ k from the initial set, initially recovered nodes removed -/
 def ball (P : DParams) (infs recs : List Node) : Nat → List Node
   | 0 => P.nodes.filter fun v => infs.contains v && !recs.contains v
   | k + 1 =>
     let b := ball P infs recs k
     P.nodes.filter fun v => !recs.contains v &&
-      (b.contains v || b.any fun u => (P.nbrs u).contains v && P.rule u v)
+      (b.contains v || b.any fun u => (P.nbrs u).contains v && P.rule 0 u v)
 
 /-- BFS distance (`none` if unreachable within `N` steps) -/
 def bfs (P : DParams) (infs recs : List Node) (v : Node) : Option Nat :=
